@@ -14,23 +14,9 @@ EXPLANATION = (
     "from btcdeb or tap, and bytes left over after the transaction are rejected. R13.4: amounts are parsed with 8 decimals, "
     "COIN is 10^8, and the string handed to the fixed-point parser is the complete token. R13.5: compact-size writer and reader "
     "use the same ladder with canonical-form checks at the class boundaries. Bit-exact round trip and field values are NOT decided.")
-TRUSTED = ["clang 14 parser/Sema/constant evaluator", "/verif extractor, stream-sequence engine", "SERIALIZE_METHODS/READWRITE classes are symmetric by construction (inventoried only)"]
-ASSUMPTIONS = ["guards of the two codec functions keep their current spelling for path selection (a refactor makes the check exit 2, not pass)"]
+TRUSTED = ["clang 14 parser/Sema/constant evaluator", "/verif extractor", "/verif term evaluator G-SYM (checker/symx.py): inlining, loop summaries relative to prev, linear normal form; casts between integer types are treated as value-preserving", "SERIALIZE_METHODS/READWRITE classes are symmetric by construction (inventoried only)"]
+ASSUMPTIONS = ["operator>> of the stream stores into the location it is given and into nothing else"]
 DECLINED = ["bit-exact round trip", "field values (version, sequences, amounts) as encoded", "ParseFixedPoint arithmetic"]
-
-
-def pick(paths_, must_have, must_not=(), term="end"):
-    out = []
-    for (ev, gd, t) in paths_:
-        if t != term:
-            continue
-        if all(any(g == m for g in gd) for m in must_have) and not any(any(g == m for g in gd) for m in must_not):
-            out.append((ev, gd))
-    return out
-
-
-def seq_text(ev):
-    return streams.show(ev)
 
 
 def mirror(seq):
